@@ -56,7 +56,8 @@ Definition body (h : hdr) (subs : list node) (sub : done -> node -> cres) (d : d
       | [a; b] => then_ (sub d a) (fun d => then_ (own d) (fun d => sub d b))      (* C04-F2 repaired: the dumped class itself is resolved *)
       | _ => nothing d
       end
-  | KBytes | KBytearray | KSlice | KJson | KSparse | KCached | KQuantileForest => nothing d
+  | KBytes | KBytearray => own d                 (* C04-F5 repaired: the dumped class (bytes, bytearray or a subclass) is resolved and called *)
+  | KSlice | KJson | KSparse | KCached | KQuantileForest => nothing d
   | KFunction | KType => own d
   | KFunctionV0 =>
       match subs with
